@@ -182,7 +182,11 @@ func expect(c Case) expectation {
 			e.serverMustFail = true
 			e.why += " client side: possession of the certificate key not proven"
 		case verify && c.Cli == cWrongEKU:
-			e.unspecified = true // extended key usage is not named by the statement
+			// "whose chain verifies": verification of a client's chain is verification for client
+			// authentication (RFC 5280 4.2.1.12; the server passes KeyUsages{ClientAuth} to Verify), so a
+			// leaf whose extended key usage names serverAuth only does not verify for this purpose.
+			e.serverMustFail = true
+			e.why += " client side: leaf certificate's extended key usage is serverAuth only"
 		case verify && !(cChainOK && timeOK(c.STime)):
 			e.serverMustFail = true
 			e.why += fmt.Sprintf(" client side: chain ok=%v time ok=%v", cChainOK, timeOK(c.STime))
